@@ -297,6 +297,10 @@ def run_model(case):
         s, a = int(rng.integers(nS)), int(rng.integers(nA))
         s2 = int(rng.integers(nS))
         r = float(np.round(rng.normal(), 2))
+        if case["seed"] % 2:
+            # few distinct reward values (coin-flip pay-offs): the same
+            # transition pays different amounts, and the same amount repeatedly
+            r = float(rng.choice([0.0, 1.0, 3.0]))
         ok, counter = guarded(res, "C14/raises/counter_update",
                               dynaq.counter_update, counter, s, a, r, s2)
         if not ok:
